@@ -6,7 +6,8 @@ from pvlib import hx
 LEVEL = "proof"
 RULE = ("(i) the real WriteOrThrow / PartialRead / ReadOrEOF / ReadOrThrow in-process with read(2)/write(2) interposed: every outcome "
         "script of length <= 5 (quick: 4) over {full, 1 byte, n-1 bytes, EINTR} plus hard errors, for several data lengths; result AND "
-        "the sequence of request sizes issued must equal the Lean model's; (ii) every executable with a standard invocation under an "
+        "the sequence of request sizes issued must equal the Lean model's; (i') util::BufferedStream in-process over a recording Writer on write/operator<</flush sequences around the 8 KiB buffer: chunk "
+        "sizes, flush count and bytes equal to the Lean model's; (ii) every executable with a standard invocation under an "
         "LD_PRELOAD shim that returns random short counts (five profiles, from occasionally short to every transfer 1 byte) and EINTR from read/write on all descriptors (stdin, stdout, shard files, "
         "child pipes), on the standard corpus, on its CRLF variant and (for five tools) on gzip (two members) / bzip2 / xz compressed stdin: stdout, output files and exit status must equal the fault-free run; runs in which no fault fired are not "
         "counted; non-trivial = distinct (tool, seed) with >= 1 fault fired, or distinct script")
@@ -51,6 +52,28 @@ def run(ctx):
             i, o, x, y = bad[0]
             pvlib.report_violation(ctx, "corr:io.loops", {"ops": [q[1] for q in bad[:10]], "impl": x, "model": y,
                                    "correspondence": "PV.Io vs util/file.cc (result and syscall request sizes)"}, no_input=True,
+                                   summary=f"{o}: impl {x} model {y}")
+    # (i') BufferedStream (every tool's output buffer) in-process over a recording Writer: the chunks handed to the Writer
+    # (sizes), the number of flushes and the bytes must be the Lean model's, for op sequences around the 8 KiB buffer
+    bops = ["-", "f", "w0", "w8192", "w8193", "w1,w8192", "w8191,c,c", "w8190,u20,w5", "w5,w9000,w5", "w8192,w8192,f,w1", "w4000,w4193", "w4000,w4192,c",
+            "w8173,u20", "w8172,u20,c", "w8173,u1", "w20000", "w1,w20000,c,f,f", "w8192,c,w8191,c,c"]
+    sizes = [0, 1, 2, 19, 20, 21, 4096, 8171, 8172, 8173, 8190, 8191, 8192, 8193, 8194, 9000, 16384, 16385, 30000]
+    for _ in range(400 if ctx.tier == "quick" else 6000):
+        toks = []
+        for _ in range(rng.randrange(1, 9)):
+            r = rng.random()
+            toks.append("w%d" % rng.choice(sizes) if r < 0.55 else "u%d" % rng.randrange(1, 21) if r < 0.75 else "c" if r < 0.9 else "f")
+        bops.append(",".join(toks))
+    bops = ["bstream.run " + t for t in dict.fromkeys(bops)]
+    bbad, ba_, bb_ = pvlib.diff_streams(ctx, "bstream.run", bops, impl_exe=os.path.join(ctx.bdir, "harness", "implfmt"))
+    if bbad:
+        i, o, x, y = sorted(bbad, key=lambda q: len(q[1]))[0]
+        if "BYTES-DIFFER" in x or not x.startswith("ok "):
+            pvlib.report_violation(ctx, "bstream:" + o, {"ops": [o], "impl": x, "model": y},
+                                   summary=f"{o}: the Writer did not receive the bytes written to the BufferedStream, in order ({x}; model {y})")
+        else:
+            pvlib.report_violation(ctx, "corr:bstream.run", {"ops": [q[1] for q in bbad[:10]], "impl": x, "model": y,
+                                   "correspondence": "PV.BufStream.step vs util::BufferedStream (chunk sizes, flushes)"}, no_input=True,
                                    summary=f"{o}: impl {x} model {y}")
     # (ii) tools under the fault shim
     shim = os.path.join(ctx.bdir, "harness", "faults_preload.so")
